@@ -449,8 +449,8 @@ def encode_oracle(case, line, expect_ok=True, maxhops=16):
     if not line.startswith("OK "):
         return None
     b = bytes.fromhex(line[3:]) if line[3:] != "-" else b""
-    if len(b) > 65535:
-        return "encoder emitted %d octets (> 65535)" % len(b)
+    if len(b) > 65535 and elem == "Dns":
+        return "encoder emitted a message of %d octets (> 65535)" % len(b)
     entry = {"Dns": "Dns", "RR": "RR", "S": "RR", "Question": "Question", "Flags": "Flags", "DomainName": "DomainName",
              "Type": "Type", "Class": "Class", "QType": "QType", "QClass": "QClass"}[elem]
     r = R.ref_decode(entry, b)
@@ -1053,8 +1053,8 @@ class C08(Prop):
         if line.startswith("OK "):
             if hard:
                 return "unrepresentable value (%s) encoded without an error (%d octets)" % (hard, (len(line) - 3) // 2)
-            if (len(line) - 3) // 2 > 65535:
-                return "encoder emitted %d octets (> 65535)" % ((len(line) - 3) // 2)
+            if (len(line) - 3) // 2 > 65535 and w[1] == "Dns":
+                return "encoder emitted a message of %d octets (> 65535)" % ((len(line) - 3) // 2)
             return encode_oracle(case, line, expect_ok=False)
         if line.startswith("ERR") and hard is None and w[1] == "Dns" and R.uncompressed_size(R.parse_canon(expand_rep(w[2]))) <= 65535 \
                 and "REP" not in w[2]:
